@@ -1,5 +1,5 @@
 (* Props/C10.v — Inference terminates and is non-destructive on every topology. *)
-From NIR Require Import Model.Graph Proofs.InferProofs.
+From NIR Require Import Model.Graph Proofs.InferProofs Proofs.IdemProofs.
 
 (* TERMINATION on every directed multigraph (cycles, self-loops, parallel edges, fan-in/out, unreachable
    components, any edge order): some fuel always suffices ... *)
@@ -53,9 +53,27 @@ Theorem c10_untouched_partial : forall fuel es st k, incl (st_ready st) es -> ~ 
   assoc k (st_ch (fst (run fuel es st))) = assoc k (st_ch st).
 Proof. exact run_untouched. Qed.
 (* (PARTIAL with respect to the property's "touches no node that is not reachable from an Input": proved
-   for children that are no edge target; for unreachable edge targets it is checked on the code by the
-   harness.  Likewise "a second run changes nothing" is checked by correspondence (CInfer2) and oracle,
-   not proved.) *)
+   for children that are no edge target; for unreachable edge targets it is checked on the code by the harness.) *)
+
+(* IDEMPOTENCE: running it a second time changes nothing.  Proved for every graph (cycles, inconsistent edges,
+   fan-in with different shapes, undefined Conv/Pool/Flatten types, nested graphs among the children ...) in which no
+   Output node is the source of an edge ... *)
+Theorem c10_idempotent : forall ch es m g1,
+  NoDup (map fst ch) ->
+  (forall a b n, In (a, b) es -> assoc a ch = Some n -> is_output n = false) ->
+  (forall k n, In (k, n) ch -> ty_nother (node_tout n)) ->
+  infer_types (mk_graph ch es m) = (g1, Finished) -> infer_types g1 = (g1, Finished).
+Proof. exact infer_idempotent_mk. Qed.
+
+(* ... and, with Output nodes as sources allowed, for graphs whose types are in the canonical form the constructors
+   and the loop itself write (single keys 'input'/'output', values None or ndarray).  The fully general statement is
+   FALSE in the model: an Output node that has out-edges and whose stale input type is a tuple keeps the tuple
+   CONTAINER in run 1 and gets the array container in run 2 (IdemProofs.counterexample_output_source) — the numbers
+   are the same, so this is not a violation of the property on the code. *)
+Theorem c10_idempotent_canonical : forall ch es m g1,
+  NoDup (map fst ch) -> (forall k n, In (k, n) ch -> cnode n) ->
+  infer_types (mk_graph ch es m) = (g1, Finished) -> infer_types g1 = (g1, Finished).
+Proof. exact infer_idempotent_canonical_mk. Qed.
 
 (* edge list, graph metadata, child names and order are unchanged by infer_types, also when it raises *)
 Theorem c10_graph_frame : forall ch es gi go m g' oc, infer_types (Graph ch es gi go m) = (g', oc) ->
@@ -77,3 +95,5 @@ Print Assumptions c10_names.
 Print Assumptions c10_frame.
 Print Assumptions c10_untouched_partial.
 Print Assumptions c10_graph_frame.
+Print Assumptions c10_idempotent.
+Print Assumptions c10_idempotent_canonical.
